@@ -127,6 +127,17 @@ def rule_len_saturating(ctx, crate, rule="R-LEN-SATURATING"):
             in_some = any(vs == {"Some"} and i in reg and [f for f in place_fields(pl) if f[2] == "len"]
                           for vs, reg, sb_, pl in K.variant_regions(b, crate, "std::option::Option"))
             via_map = sl.has_call(r"std::option::Option::<T>::(map|and_then)") or via_closure
+            if not in_some and not via_map:
+                # `self.state.len = self.state.len.map(|l| ..)` after closure inlining: the stored value is built as Some only in the
+                # Some region of the old length, and is None otherwise
+                somes = [d for d in sl.defs if d["kind"] == "assign" and d["rv"]["k"] == "agg" and d["rv"].get("adt") == "std::option::Option" and d["rv"].get("variant") == "Some"]
+                def _is_len(pl_):
+                    if [f for f in place_fields(pl_) if f[2] == "len"]:
+                        return True
+                    return any(d_["kind"] == "assign" and d_["rv"]["k"] == "use" and isinstance(d_["rv"]["op"], dict) and d_["rv"]["op"].get("k") in ("copy", "move")
+                               and [f for f in place_fields(d_["rv"]["op"]["place"]) if f[2] == "len"] for d_ in b.defs().get(pl_["l"], ()) if not pl_["p"])
+                regs = [reg for vs, reg, sb_, pl in K.variant_regions(b, crate, "std::option::Option") if vs == {"Some"} and _is_len(pl)]
+                in_some = bool(somes) and all(any(d["bb"] in reg for reg in regs) for d in somes)
             ctx.check(not defaulted and (in_some or via_map), rule, "%s:unknown-stays-unknown" % K.meth(fn), b.name, "%s:%d" % (b.file, s.get("line", 0)),
                       "the length is changed only when it is known",
                       "%s stores a length also when the old length is unknown (a default stands in for it): length() turns from None into Some(..), fraction() "
